@@ -8,7 +8,7 @@ Step-level wake-conservation obligations (waker registration, wake-one forwardin
 import os, sys
 sys.path.insert(0, os.path.dirname(__file__))
 import chanlib
-from vlib import VERIF
+from vlib import VERIF, CHAN_RUSTFLAGS
 
 THEOREMS = chanlib.names("C06")
 # ---- step-level B-model obligations/ties of other agents: each exposes THEOREMS (+MODULE) / obligations(ctx) and tie(ctx)
@@ -17,7 +17,7 @@ LAYER_B = ["spscb", "mpmc2b", "rdvb", "mpsc3b", "lockb"]
 def run(ctx):
     ctx.lean_obligations("Fv.Props.C06", THEOREMS)
     drv = ctx.lean_exe("fvdrv_chan")
-    h = ctx.cargo_build("chan", "chanh", rustflags="--cfg loom")
+    h = ctx.cargo_build("chan", "chanh", rustflags=CHAN_RUSTFLAGS)
     ctx.assumptions += [a for a in chanlib.ASSUMPTIONS if a not in ctx.assumptions]
     ctx.assumptions += [
         "C06: wakers are not modelled at this level; the history's wake counters (wakes f => n:k, dropfut => ok / ok:woken) are judged against enabledness on the abstract state (exact occupancy), k > 0 is never constrained",
